@@ -20,6 +20,9 @@ def guardedBy (want : Hold) : Hold → List Act → Bool
 def Call.isMutator : Call → Bool
   | .reader _ => false
   | .clear => false
+  | .mapSet => false
+  | .mapDelete _ => false
+  | .clone _ => false
   | _ => true
 
 /-- `Apply`/`Compute`/`Replace` -/
